@@ -24,7 +24,7 @@ RULE = ("per class: random valid geometry (aspect 0.07..15), excitation (generic
 ASSUMPTIONS = ["oracle = scipy.integrate.cubature/quad_vec on the defining integrals, self-tested in every run "
                "(sphere interior 2J/3, sphere exterior = dipole, cube winding number 1/0, long wire, circle centre)",
                "tolerance 1e-6*|ref| + per-class floor (tol.py) + 10x the oracle's own error estimate"]
-REGIONS = ["shell", "axis", "edge_ext", "coincidence_near", "mid", "far"]
+REGIONS = ["shell", "axis", "edge_ext", "coincidence_near", "mid", "far", "special_exact"]
 
 
 def plan(tier):
@@ -64,7 +64,7 @@ def sample_observer(rng, s):
     """(local point, region tag)"""
     c = s["cls"]
     size = objs.size_of(s)
-    reg = str(rng.choice(REGIONS, p=[0.4, 0.12, 0.12, 0.12, 0.12, 0.12]))
+    reg = str(rng.choice(REGIONS[:6], p=[0.4, 0.12, 0.12, 0.12, 0.12, 0.12]))
     if reg == "axis" and c not in ("Cylinder", "CylinderSegment", "Circle", "Sphere"):
         reg = "shell"
     if reg == "edge_ext" and c not in ("Cuboid", "Polyline", "Triangle", "Tetrahedron", "TriangularMesh"):
@@ -181,7 +181,76 @@ def attach_probes(ctx):
 
 
 # ------------------------------------------------------------------ case
+def wire_dist(s, q):
+    """distance of local point q from the conductor of a current source"""
+    if s["cls"] == "Circle":
+        return float(np.hypot(np.hypot(q[0], q[1]) - s["diameter"] / 2, q[2]))
+    V = np.array(s["vertices"], float)
+    best = np.inf
+    for a, b in zip(V[:-1], V[1:]):
+        ab = b - a
+        L2 = float(ab @ ab)
+        t = 0.0 if L2 == 0 else float(np.clip((q - a) @ ab / L2, 0, 1))
+        best = min(best, float(np.linalg.norm(q - a - t * ab)))
+    return best
+
+
+def gen_special_exact(rng):
+    """source in the identity pose, observers EXACTLY on special sets of its geometry that are not on its
+    surface: extensions of edges and face planes, axes, symmetry planes - where grids aligned with a
+    magnet put their points and where the implementations switch to special-case formulas"""
+    cls = str(rng.choice([c for c in objs.SOURCE_CLASSES if c not in ("CustomSource",)]))
+    s = rand_spec(rng, cls)
+    s["position"], s["orientation"] = [[0.0, 0.0, 0.0]], [[0.0, 0.0, 0.0, 1.0]]
+    size = objs.size_of(s)
+    pts = [np.asarray(v, float) for v in G.special_points(s).values()]
+    if cls == "Cuboid":
+        h = np.array(s["dimension"], float) / 2
+        for _ in range(6):
+            ax = int(rng.integers(0, 3))
+            q = h * rng.choice([-1, 1], 3)
+            q[ax] = h[ax] * rng.choice([-1, 1]) * rng.uniform(1.05, 3)      # on the extension of an edge
+            pts.append(q)
+            q = h * rng.uniform(-3, 3, 3)
+            q[ax] = h[ax] * rng.choice([-1, 1])                              # in the plane of a face
+            pts.append(q)
+            q = h * rng.uniform(-3, 3, 3)
+            q[ax] = 0.0                                                      # symmetry plane
+            pts.append(q)
+    elif cls in ("Cylinder", "CylinderSegment"):
+        r = s["dimension"][0] / 2 if cls == "Cylinder" else s["dimension"][1]
+        hh = s["dimension"][1] if cls == "Cylinder" else s["dimension"][2]
+        for _ in range(4):
+            pts.append(np.array([0.0, 0.0, rng.uniform(-2, 2) * hh]))                       # axis
+            ph = rng.uniform(0, 2 * np.pi)
+            pts.append(np.array([r * np.cos(ph), r * np.sin(ph), rng.choice([-1, 1]) * rng.uniform(0.6, 2) * hh]))  # hull extended
+            rr = r * rng.uniform(1.1, 3)
+            pts.append(np.array([rr * np.cos(ph), rr * np.sin(ph), rng.choice([-1, 1]) * hh / 2]))  # cap plane
+            pts.append(np.array([rr * np.cos(ph), rr * np.sin(ph), 0.0]))
+    elif cls in ("Circle",):
+        r = s["diameter"] / 2
+        for _ in range(4):
+            pts.append(np.array([0.0, 0.0, rng.uniform(-3, 3) * r]))
+            ph = rng.uniform(0, 2 * np.pi)
+            pts.append(np.array([np.cos(ph), np.sin(ph), 0.0]) * r * rng.choice([rng.uniform(0.05, 0.9), rng.uniform(1.1, 3)]))
+    keep = []
+    for q in pts:
+        d = wire_dist(s, q) if cls in ("Circle", "Polyline") else (np.linalg.norm(q) if cls == "Dipole"
+                                                                    else float(G.dist_to_surface(s, q[None])[0]))
+        if d >= 2e-3 * size:
+            keep.append(q)
+    if not keep:
+        return None
+    idx = rng.permutation(len(keep))[:12]
+    P = np.array([keep[i] for i in idx])
+    return {"source": s, "observers": P.tolist(), "regions": ["special_exact"] * len(P)}
+
+
 def gen_case(rng):
+    if rng.random() < 0.12:
+        c = gen_special_exact(rng)
+        if c is not None:
+            return c
     cls = str(rng.choice(objs.SOURCE_CLASSES))
     s = rand_spec(rng, cls)
     n = int(rng.choice([1, 3, 12, 18]))
